@@ -47,7 +47,7 @@ type rig struct {
 	db      *chsql.DB
 	complex bool
 	stmts   []stmtRec
-	scans []scanRec
+	scans   []scanRec
 }
 
 type variant struct {
